@@ -38,6 +38,20 @@ Theorem prune_below_opaque_sound :
     view (result_image (merge n o (top :: above) cov)).
 Proof. exact merge_prune. Qed.
 
+(* prune_below_opaque_sound at the WMS level (WMSServer.map, request combination off): for every request -
+   any number of layers, groups nested to any depth - whose selected layer names are distinct (finding
+   duplicate-layer-name otherwise), the response with the is_opaque optimisation shows the same picture as the
+   response without it, provided every source accepted by is_opaque delivers an opaque layer (upstream
+   assumption; the absence of fading is proved, see wms_source_is_opaque_facts) of the requested size. *)
+Theorem prune_below_opaque_sound_wms :
+  forall fetch n o req,
+    NoDup (req_keys req) ->
+    (forall s l, fetch s = Some l -> sized n l) ->
+    (forall s, src_is_opaque s = true -> exists l, fetch s = Some l /\ opaque_layer l) ->
+    view (result_image (wms_map true false fetch n o req)) =
+    view (result_image (wms_map false false fetch n o req)).
+Proof. exact wms_prune. Qed.
+
 (* what WMSSource.is_opaque = true guarantees: the source answers (inside resolution range and coverage),
    is not declared transparent and is not faded by merge *)
 Theorem wms_source_is_opaque_facts :
